@@ -128,7 +128,8 @@ Qed.
 
 (** [skip_chain]: same shape as one skip *)
 Lemma skip_chain_sd m k : forall pc m', skip_chain code m k pc = Ok m' ->
-  exists t, m' = set_pc m t /\ pc < t /\ t <= length code /\ sd t = sd pc /\ (forall j, pc <= j -> j <= t -> (sd pc <= sd j)%Z).
+  exists t, m' = set_pc m t /\ pc < t /\ (exists q p, t = S q /\ stmt_at code q = Some (FBlockEnd p)) /\ sd t = sd pc /\
+            (forall j, pc <= j -> j <= t -> (sd pc <= sd j)%Z).
 Proof.
   induction k as [|k IH]; intros pc m' H; [discriminate|]. cbn [skip_chain] in H.
   set (pc1 := match stmt_at code pc with Some (FIf _ _) => S pc | _ => pc end) in *.
@@ -145,13 +146,13 @@ Proof.
   { intros j Hj1 Hj2. destruct (Nat.le_gt_cases j pc1) as [Hc|Hc]; [rewrite (Hflat j Hj1 Hc); lia|].
     specialize (Hnd j ltac:(lia) Hj2). lia. }
   destruct (stmt_at code (S q)) as [s2|] eqn:E2.
-  - destruct s2; try (injection H as <-; exists (S q); repeat split; try lia; exact Hbase).
+  - destruct s2; try (injection H as <-; exists (S q); split; [reflexivity|]; split; [lia|]; split; [eauto|]; split; [lia|exact Hbase]).
     destruct (IH _ _ H) as (t & -> & Ht1 & Ht2 & Ht3 & Ht4).
     pose proof (sd_S (S q) _ E2) as Hsd. cbn [delta] in Hsd.
-    exists t. repeat split; try lia.
+    exists t. split; [reflexivity|]. split; [lia|]. split; [exact Ht2|]. split; [lia|].
     intros j Hj1 Hj2. destruct (Nat.le_gt_cases j (S q)) as [Hc|Hc]; [apply Hbase; lia|].
     specialize (Ht4 j ltac:(lia) Hj2). lia.
-  - injection H as <-. exists (S q). repeat split; try lia. exact Hbase.
+  - injection H as <-. exists (S q). split; [reflexivity|]. split; [lia|]. split; [eauto|]. split; [lia|exact Hbase].
 Qed.
 
 End Frames.
